@@ -7,8 +7,10 @@ Coq model (coq/C03/Model.v: prepare + run_request / lifespan) and judged by the 
 (coq/C03/Spec.v: oracle = documented discipline + req_succeeded flags + nothing after an
 unhandled raise + response methods bottom-up once each)."""
 import asyncio
+import io
 import itertools
 import json
+import logging
 
 import common
 
@@ -32,6 +34,9 @@ class State:
     script = {}
     trace = []
     variant = 0
+    custom = None      # exception class raised by action code 7 (memo block)
+    traces = None      # {request id: trace} in the concurrency block
+    pausing = False    # async recorders await Pause() around their work
 
 
 def make_handled(falcon):
@@ -57,11 +62,14 @@ def perform(falcon, Handled, site, code, resp):
         raise falcon.HTTPForbidden()
     if code in (3, 4, 5):
         raise Handled(site, code - 3)
+    if code == 7:
+        # an application exception class of the memo block (State.custom)
+        raise State.custom()
     raise Abort()
 
 
-def handler_body(falcon, ex, resp):
-    State.trace.append([2, ex.site, ex.hact])
+def handler_body(falcon, ex, resp, req=None):
+    (trace_of(req) if req is not None else State.trace).append([2, ex.site, ex.hact])
     if ex.hact == 0:
         resp.status = 599
         return
@@ -74,80 +82,133 @@ def handler_body(falcon, ex, resp):
     raise HandlerBoom()
 
 
-def build_component(falcon, Handled, asgi, idx, shape, naming):
+class Pause:
+    """an await point at which the concurrency block switches between requests"""
+    def __await__(self):
+        yield 'pause'
+
+
+def trace_of(req):
+    """the per-request trace in the concurrency block (two requests on one app), else the
+    global one"""
+    if State.traces is not None:
+        return State.traces[req.get_header('X-Req-Id')]
+    return State.trace
+
+
+# definition styles (coq/C03/Styles.v): 0 method, 1 staticmethod, 2 classmethod, 3 function on the
+# instance, 4 callable object on the instance, 5 inherited from a base class
+BOUND_STYLES = (0, 2, 5)
+
+
+def build_component(falcon, Handled, asgi, idx, shape, naming, styles=(0, 0, 0, 0, 0)):
     """shape = (has_req, has_rsrc, has_resp, has_startup, has_shutdown).
-    naming (ASGI only): 0 = plain coroutine names, 1 = *_async names next to sync decoys."""
-    ns = {}
+    naming (ASGI only): 0 = plain coroutine names, 1 = *_async names next to sync decoys.
+    styles: how each of the five methods is defined on the component."""
+    ns, base_ns, inst = {}, {}, {}
     has_req, has_rsrc, has_resp, has_su, has_sd = shape
 
-    def rec(kind, resp):
-        code = State.script[(kind, idx)]
-        State.trace.append([0, [kind, idx], code])
-        return code
+    def install(name, core, style, is_async):
+        if style in (0, 5):
+            if is_async:
+                async def m(self, *a):
+                    return await core(*a)
+            else:
+                def m(self, *a):
+                    return core(*a)
+            (base_ns if style == 5 else ns)[name] = m
+        elif style == 1:
+            ns[name] = staticmethod(core)
+        elif style == 2:
+            if is_async:
+                async def cm(cls, *a):
+                    return await core(*a)
+            else:
+                def cm(cls, *a):
+                    return core(*a)
+            ns[name] = classmethod(cm)
+        elif style == 3:
+            inst[name] = core
+        else:
+            if is_async:
+                class K:
+                    async def __call__(self, *a):
+                        return await core(*a)
+            else:
+                class K:
+                    def __call__(self, *a):
+                        return core(*a)
+            inst[name] = K()
+
+    def do_req(req, resp):
+        code = State.script[(S_REQ, idx)]
+        trace_of(req).append([0, [S_REQ, idx], code])
+        perform(falcon, Handled, [S_REQ, idx], code, resp)
+
+    def do_rsrc(req, resp, resource, params):
+        assert resource is not None
+        code = State.script[(S_RSRC, idx)]
+        trace_of(req).append([0, [S_RSRC, idx], code])
+        perform(falcon, Handled, [S_RSRC, idx], code, resp)
+
+    def do_resp(req, resp, resource, req_succeeded):
+        code = State.script[(S_RESP, idx)]
+        trace_of(req).append([1, idx, code, resource is not None, bool(req_succeeded)])
+        perform(falcon, Handled, [S_RESP, idx], code, resp)
 
     if not asgi:
         if has_req:
-            def process_request(self, req, resp):
-                perform(falcon, Handled, [S_REQ, idx], rec(S_REQ, resp), resp)
-            ns['process_request'] = process_request
+            install('process_request', do_req, styles[0], False)
         if has_rsrc:
-            def process_resource(self, req, resp, resource, params):
-                assert resource is not None
-                perform(falcon, Handled, [S_RSRC, idx], rec(S_RSRC, resp), resp)
-            ns['process_resource'] = process_resource
+            install('process_resource', do_rsrc, styles[1], False)
         if has_resp:
-            def process_response(self, req, resp, resource, req_succeeded):
-                code = State.script[(S_RESP, idx)]
-                State.trace.append([1, idx, code, resource is not None, bool(req_succeeded)])
-                perform(falcon, Handled, [S_RESP, idx], code, resp)
-            ns['process_response'] = process_response
+            install('process_response', do_resp, styles[2], False)
     else:
         suffix = '_async' if naming else ''
 
         def decoy(self, *a, **k):
             State.trace.append([9, 'sync variant called on ASGI'])
 
-        if has_req:
-            async def process_request(self, req, resp):
-                perform(falcon, Handled, [S_REQ, idx], rec(S_REQ, resp), resp)
-            ns['process_request' + suffix] = process_request
-            if naming:
-                ns['process_request'] = decoy
-        if has_rsrc:
-            async def process_resource(self, req, resp, resource, params):
-                assert resource is not None
-                perform(falcon, Handled, [S_RSRC, idx], rec(S_RSRC, resp), resp)
-            ns['process_resource' + suffix] = process_resource
-            if naming:
-                ns['process_resource'] = decoy
-        if has_resp:
-            async def process_response(self, req, resp, resource, req_succeeded):
-                code = State.script[(S_RESP, idx)]
-                State.trace.append([1, idx, code, resource is not None, bool(req_succeeded)])
-                perform(falcon, Handled, [S_RESP, idx], code, resp)
-            ns['process_response' + suffix] = process_response
-            if naming:
-                ns['process_response'] = decoy
+        def awaiting(f):
+            async def core(*a):
+                if State.pausing:
+                    await Pause()
+                f(*a)
+                if State.pausing:
+                    await Pause()
+            return core
+
+        for present, name, f, y in ((has_req, 'process_request', do_req, styles[0]),
+                                    (has_rsrc, 'process_resource', do_rsrc, styles[1]),
+                                    (has_resp, 'process_response', do_resp, styles[2])):
+            if present:
+                install(name + suffix, awaiting(f), y, True)
+                if naming:
+                    ns[name] = decoy
     # lifespan handlers (ignored by WSGI apps, but their presence must not matter there)
     if has_su:
-        async def process_startup(self, scope, event):
+        async def startup(scope, event):
             code = State.script[('su', idx)]
             State.trace.append([0, 1, idx, code])
             if code == 1:
                 raise ValueError('startup failed')
             if code == 2:
                 raise Abort()
-        ns['process_startup'] = process_startup
+        install('process_startup', startup, styles[3], True)
     if has_sd:
-        async def process_shutdown(self, scope, event):
+        async def shutdown(scope, event):
             code = State.script[('sd', idx)]
             State.trace.append([0, 0, idx, code])
             if code == 1:
                 raise ValueError('shutdown failed')
             if code == 2:
                 raise Abort()
-        ns['process_shutdown'] = process_shutdown
-    return type('MW%d' % idx, (), ns)()
+        install('process_shutdown', shutdown, styles[4], True)
+    base = type('Base%d' % idx, (), base_ns)
+    obj = type('MW%d' % idx, (base,), ns)()
+    for k, v in inst.items():
+        setattr(obj, k, v)
+    return obj
 
 
 def build_resource(falcon, Handled, asgi, hook_shape, class_level, hier=None):
@@ -166,35 +227,35 @@ def build_resource(falcon, Handled, asgi, hook_shape, class_level, hier=None):
             if before:
                 async def hook(req, resp, resource, params):
                     code = State.script[(S_HOOK, j)]
-                    State.trace.append([0, [S_HOOK, j], code])
+                    trace_of(req).append([0, [S_HOOK, j], code])
                     perform(falcon, Handled, [S_HOOK, j], code, resp)
             else:
                 async def hook(req, resp, resource):
                     code = State.script[(S_HOOK, j)]
-                    State.trace.append([0, [S_HOOK, j], code])
+                    trace_of(req).append([0, [S_HOOK, j], code])
                     perform(falcon, Handled, [S_HOOK, j], code, resp)
         else:
             if before:
                 def hook(req, resp, resource, params):
                     code = State.script[(S_HOOK, j)]
-                    State.trace.append([0, [S_HOOK, j], code])
+                    trace_of(req).append([0, [S_HOOK, j], code])
                     perform(falcon, Handled, [S_HOOK, j], code, resp)
             else:
                 def hook(req, resp, resource):
                     code = State.script[(S_HOOK, j)]
-                    State.trace.append([0, [S_HOOK, j], code])
+                    trace_of(req).append([0, [S_HOOK, j], code])
                     perform(falcon, Handled, [S_HOOK, j], code, resp)
         return hook
 
     if asgi:
         async def on_get(self, req, resp):
             code = State.script[(S_RESPONDER, 0)]
-            State.trace.append([0, [S_RESPONDER, 0], code])
+            trace_of(req).append([0, [S_RESPONDER, 0], code])
             perform(falcon, Handled, [S_RESPONDER, 0], code, resp)
     else:
         def on_get(self, req, resp):
             code = State.script[(S_RESPONDER, 0)]
-            State.trace.append([0, [S_RESPONDER, 0], code])
+            trace_of(req).append([0, [S_RESPONDER, 0], code])
             perform(falcon, Handled, [S_RESPONDER, 0], code, resp)
     layers = list(enumerate(hook_shape))
     if hier is not None:
@@ -235,19 +296,20 @@ class AppCache:
         self.limit = limit
         self.Handled, self.HandledChild = make_handled(falcon)
 
-    def get(self, asgi, indep, shapes, naming, hook_shape, class_level, split=None, hier=None):
+    def get(self, asgi, indep, shapes, naming, hook_shape, class_level, split=None, hier=None, styles=None):
         """Returns (app, oks): oks = which add_middleware calls returned normally.
         split: [(n, kind)] - the first entry is the constructor argument, the others are
         add_middleware calls; kind 0 list, 1 bare component (n == 1), 2 None (n == 0), 3 tuple."""
         split = tuple(tuple(x) for x in (split or [(len(shapes), 0)]))
         hier = None if hier is None else (tuple(hier[0]), bool(hier[1]), bool(hier[2]))
-        key = (asgi, indep, shapes, naming, hook_shape, class_level, split, hier)
+        styles = tuple(styles) if styles else tuple((0, 0, 0, 0, 0) for _ in shapes)
+        key = (asgi, indep, shapes, naming, hook_shape, class_level, split, hier, styles)
         app = self.cache.get(key)
         if app is not None:
             return app
         falcon = self.falcon
         Handled = self.Handled
-        mws = [build_component(falcon, Handled, asgi, i, sh, naming[i] if naming else 0)
+        mws = [build_component(falcon, Handled, asgi, i, sh, naming[i] if naming else 0, styles[i])
                for i, sh in enumerate(shapes)]
         args, pos = [], 0
         for n, kind in split:
@@ -259,8 +321,8 @@ class AppCache:
         try:
             App = falcon.asgi.App if asgi else falcon.App
             app = App(middleware=args[0], independent_middleware=indep)
-        except TypeError as e:
-            app = ('TypeError', [])
+        except (TypeError, AttributeError) as e:
+            app = (type(e).__name__, [])
             self.cache[key] = app
             return app
         for a in args[1:]:
@@ -276,34 +338,34 @@ class AppCache:
         if asgi:
             async def sink(req, resp, **kw):
                 code = State.script[(S_RESPONDER, 0)]
-                State.trace.append([0, [S_RESPONDER, 0], code])
+                trace_of(req).append([0, [S_RESPONDER, 0], code])
                 perform(falcon, Handled, [S_RESPONDER, 0], code, resp)
 
             async def handler(req, resp, ex, params):
-                handler_body(falcon, ex, resp)
+                handler_body(falcon, ex, resp, req)
 
             async def h_default(req, resp, ex, params):
-                State.trace.append([2, [S_DEFAULT, 0], 0])
+                trace_of(req).append([2, [S_DEFAULT, 0], 0])
                 resp.status = ex.status
 
             async def h_meta(req, resp, ex, params):
-                State.trace.append([2, [S_META, 0], 0])
+                trace_of(req).append([2, [S_META, 0], 0])
                 resp.status = ex.status
         else:
             def sink(req, resp, **kw):
                 code = State.script[(S_RESPONDER, 0)]
-                State.trace.append([0, [S_RESPONDER, 0], code])
+                trace_of(req).append([0, [S_RESPONDER, 0], code])
                 perform(falcon, Handled, [S_RESPONDER, 0], code, resp)
 
             def handler(req, resp, ex, params):
-                handler_body(falcon, ex, resp)
+                handler_body(falcon, ex, resp, req)
 
             def h_default(req, resp, ex, params):
-                State.trace.append([2, [S_DEFAULT, 0], 0])
+                trace_of(req).append([2, [S_DEFAULT, 0], 0])
                 resp.status = ex.status
 
             def h_meta(req, resp, ex, params):
-                State.trace.append([2, [S_META, 0], 0])
+                trace_of(req).append([2, [S_META, 0], 0])
                 resp.status = ex.status
         app.add_sink(sink, '/sink')
         app.add_error_handler(Handled, handler)
@@ -319,7 +381,11 @@ class AppCache:
 # ------------------------------------------------------------------ cases
 
 def shape_of(comp):
-    return tuple(x >= 0 for x in comp)
+    return tuple(x >= 0 for x in comp[:5])
+
+
+def styles_of(comp):
+    return tuple(comp[5]) if len(comp) > 5 else (0, 0, 0, 0, 0)
 
 
 def case_key(c):
@@ -371,7 +437,7 @@ def effective_comps(c, oks):
 def set_script(c):
     s = {}
     for i, comp in enumerate(c['comps']):
-        s[(S_REQ, i)], s[(S_RSRC, i)], s[(S_RESP, i)], s[('su', i)], s[('sd', i)] = comp
+        s[(S_REQ, i)], s[(S_RSRC, i)], s[(S_RESP, i)], s[('su', i)], s[('sd', i)] = comp[:5]
     for j, (b, a) in enumerate(c['hooks']):
         s[(S_HOOK, j)] = a
     s[(S_RESPONDER, 0)] = c['responder']
@@ -383,7 +449,7 @@ def set_script(c):
 def get_app(cache, c):
     return cache.get(bool(c['asgi']), bool(c['indep']), tuple(shape_of(x) for x in c['comps']),
                      tuple(c['naming']), tuple(bool(h[0]) for h in c['hooks']), c['class_level'],
-                     c.get('split'), c.get('hier'))
+                     c.get('split'), c.get('hier'), tuple(styles_of(x) for x in c['comps']))
 
 
 _ENV = {}
@@ -395,7 +461,7 @@ def run_wsgi(testing, app, c):
         method = 'WEBSOCKET'
     k = (method, path)
     if k not in _ENV:
-        _ENV[k] = testing.create_environ(path=path, method=method)
+        _ENV[k] = testing.create_environ(path=path, method=method, wsgierrors=io.StringIO())
     env = dict(_ENV[k])
     started = []
 
@@ -478,8 +544,8 @@ class Runner:
         asgi_idx = []
         for n, c in enumerate(cases):
             app, oks = get_app(self.cache, c)
-            if app == 'TypeError':
-                res[n] = 'TypeError'
+            if isinstance(app, str):
+                res[n] = app
             elif c['asgi']:
                 asgi_idx.append((n, app, oks))
             else:
@@ -504,10 +570,10 @@ class Runner:
             ctx.count(label)
             if len(c.get('split') or []) > 1:
                 ctx.count('built-in-steps')
-            mres = 'TypeError' if m[0] == 0 else (m[1], model_ending(m[2]), m[3])
-            nontrivial = r != 'TypeError' and len(r[0]) > 0
+            mres = {1: 'TypeError', 2: 'AttributeError'}[m[1]] if m[0] == 0 else (m[1], model_ending(m[2]), m[3])
+            nontrivial = not isinstance(r, str) and len(r[0]) > 0
             ctx.note_case(case_key(c), nontrivial)
-            if r == 'TypeError' or mres == 'TypeError':
+            if isinstance(r, str) or isinstance(mres, str):
                 if r != mres:
                     self.report(c, r, mres, [0])
                 continue
@@ -549,16 +615,164 @@ class Runner:
                  2: 'req_succeeded flag', 3: 'call after unhandled raise / ending', 4: 'response methods once each',
                  5: 'which add_middleware calls raised TypeError'}
         self.ctx.violation('call-order-violated',
-                           {'case': c, 'impl_trace': r if r == 'TypeError' else r[0],
-                            'impl_ending': r if r == 'TypeError' else r[1],
-                            'impl_add_middleware_ok': None if r == 'TypeError' else r[2],
-                            'expected': mres if mres == 'TypeError' else {'trace': mres[0], 'ending': mres[1],
+                           {'case': c, 'impl_trace': r if isinstance(r, str) else r[0],
+                            'impl_ending': r if isinstance(r, str) else r[1],
+                            'impl_add_middleware_ok': None if isinstance(r, str) else r[2],
+                            'expected': mres if isinstance(mres, str) else {'trace': mres[0], 'ending': mres[1],
                                                                           'add_middleware_ok': mres[2]},
                             'clauses_failed': clauses, 'clause_names': {str(k): names[k] for k in clauses},
                             'legend': 'events: [0,[site,idx],action] call | [1,idx,action,resource_present,req_succeeded] '
                                       'process_response | [2,[site,idx],handler_action]; sites 0 req 1 rsrc 2 resp 3 hook '
                                       '4 responder 5 default-responder 6 meta'},
                            key='order-%s-%d-%d' % (clauses, c['asgi'], c['indep']))
+
+    # ---------------- raise T; add_error_handler(ancestor of T); raise T again
+    def memo_block(self):
+        """The same concrete exception type raised twice on one app with a registration for an
+        ancestor in between: first the default Exception handler answers (the trace of a silently
+        handled raise), then the new handler must run (the trace of RaiseApp HReturn)."""
+        ctx = self.ctx
+        for asgi in (0, 1):
+            for indep in (0, 1):
+                for site in ('responder', 'req', 'resp'):
+                    comps = [[0, 0, 0, -1, -1], [7 if site == 'req' else 0, -1, 7 if site == 'resp' else 0, -1, -1]]
+                    c = mk_case(asgi, indep, comps, responder=7 if site == 'responder' else 0)
+                    local = AppCache(self.falcon)
+                    app, _ = get_app(local, c)
+
+                    class Base(Exception):
+                        pass
+
+                    class T(Base):
+                        pass
+                    State.custom = T
+                    obs = []
+                    for phase in (0, 1):
+                        if phase == 1:
+                            if asgi:
+                                async def h(req, resp, ex, params):
+                                    t = trace_of(req)
+                                    t.append([2, list(t[-1][1]) if t[-1][0] == 0 else [S_RESP, t[-1][1]], 0])
+                                    resp.status = 599
+                            else:
+                                def h(req, resp, ex, params):
+                                    t = trace_of(req)
+                                    t.append([2, list(t[-1][1]) if t[-1][0] == 0 else [S_RESP, t[-1][1]], 0])
+                                    resp.status = 599
+                            app.add_error_handler(Base, h)
+                        if asgi:
+                            t, e = asyncio.run(run_asgi(self.testing, app, c))
+                        else:
+                            t, e = run_wsgi(self.testing, app, c)
+                        obs.append((canon_trace(t), e))
+                    exp = []
+                    for code in (2, 3):   # silently handled by the default handler / handled by h
+                        cc = json.loads(json.dumps(c).replace('7', str(code)))
+                        cc['comps'] = [[code if x == 7 else x for x in comp] for comp in c['comps']]
+                        cc['responder'] = code if c['responder'] == 7 else c['responder']
+                        m = self.model.run(wire_case(cc))
+                        exp.append((m[1], model_ending(m[2])))
+                    for phase, code in ((0, 2), (1, 3)):
+                        got = ([[code if (isinstance(x, int) and x == 7 and k == len(ev) - (1 if ev[0] == 0 else 3)) else x
+                                 for k, x in enumerate(ev)] for ev in obs[phase][0]], obs[phase][1])
+                        ctx.count('memo-block')
+                        ctx.note_case(('memo', asgi, indep, site, phase), True)
+                        if got != exp[phase]:
+                            ctx.violation('call-order-violated',
+                                          {'case': c, 'what': 'raise T; add_error_handler(ancestor of T); raise T again '
+                                           '(phase %d)' % phase, 'impl_trace': got[0], 'impl_ending': got[1],
+                                           'expected': {'trace': exp[phase][0], 'ending': exp[phase][1]}},
+                                          key='memo-%d' % asgi)
+
+    # ---------------- two concurrent ASGI requests on one app
+    def concurrency_block(self, max_schedules):
+        """Two requests on one ASGI app, interleaved at every await of the recording middleware
+        (the coroutines are stepped by hand): each request's trace must equal its sequential
+        trace, in dependent and independent mode."""
+        ctx = self.ctx
+        testing = self.testing
+        scripts = [[[0, -1, 0, -1, -1], [0, -1, 0, -1, -1], [0, -1, 0, -1, -1]],
+                   [[0, 0, 0, -1, -1], [3, -1, 0, -1, -1]],
+                   [[0, -1, 0, -1, -1], [1, 0, 3, -1, -1], [0, -1, 0, -1, -1]],
+                   [[-1, 0, 0, -1, -1], [0, 4, 0, -1, -1]]]
+
+        def start(app, rid):
+            scope = testing.create_scope(path='/r', method='GET', headers={'X-Req-Id': rid})
+            msgs = [{'type': 'http.request', 'body': b'', 'more_body': False}]
+
+            async def receive():
+                return msgs.pop(0) if msgs else {'type': 'http.disconnect'}
+
+            async def send(ev):
+                pass
+            return app(scope, receive, send)
+
+        def step(coro):
+            try:
+                coro.send(None)
+                return True
+            except StopIteration:
+                return False
+            except (Abort, HandlerBoom):
+                return False
+
+        def interleavings(na, nb):
+            if na == 0 or nb == 0:
+                yield 'a' * na + 'b' * nb
+                return
+            for rest in interleavings(na - 1, nb):
+                yield 'a' + rest
+            for rest in interleavings(na, nb - 1):
+                yield 'b' + rest
+        for indep in (0, 1):
+            for comps in scripts:
+                c = mk_case(1, indep, comps)
+                app, _ = get_app(self.cache, c)
+                m = self.model.run(wire_case(c))
+                expected = m[1]
+                set_script(c)
+                State.pausing = True
+                try:
+                    # dry run: number of steps of one request
+                    State.traces = {'a': [], 'b': []}
+                    co = start(app, 'a')
+                    n = 1
+                    while step(co):
+                        n += 1
+                    if canon_trace(State.traces['a']) != expected:
+                        ctx.violation('call-order-violated', {'case': c, 'what': 'stepped single request',
+                                                              'impl_trace': canon_trace(State.traces['a']),
+                                                              'expected': {'trace': expected}}, key='conc-dry')
+                        continue
+                    count = 0
+                    for sched in interleavings(n, n):
+                        count += 1
+                        if count > max_schedules:
+                            break
+                        State.traces = {'a': [], 'b': []}
+                        cos = {'a': start(app, 'a'), 'b': start(app, 'b')}
+                        alive = {'a': True, 'b': True}
+                        for who in sched:
+                            if alive[who]:
+                                alive[who] = step(cos[who])
+                        for who in 'ab':
+                            while alive[who]:
+                                alive[who] = step(cos[who])
+                        ctx.count('concurrent-schedules')
+                        bad = [w for w in 'ab' if canon_trace(State.traces[w]) != expected]
+                        if bad:
+                            ctx.violation('call-order-violated',
+                                          {'case': c, 'what': 'two concurrent ASGI requests on one app: the trace of '
+                                           'request %s differs from its sequential trace' % bad[0], 'schedule': sched,
+                                           'impl_trace': canon_trace(State.traces[bad[0]]),
+                                           'other_request_trace': canon_trace(State.traces['b' if bad[0] == 'a' else 'a']),
+                                           'expected': {'trace': expected}},
+                                          key='concurrent-%d' % indep)
+                            break
+                    ctx.note_case(('conc', indep, repr(comps)), True)
+                finally:
+                    State.pausing = False
+                    State.traces = None
 
     # ---------------- lifespan
     def lifespan(self, cases):
@@ -570,7 +784,7 @@ class Runner:
 
         async def one(c):
             app, oks = get_app(self.cache, c)
-            if app == 'TypeError':
+            if isinstance(app, str):
                 return 'TypeError'
             msgs = list(c['msgs'])
             sent = []
@@ -594,6 +808,8 @@ class Runner:
                 end = 1
             except Abort:
                 end = 2
+            except Exception as e:   # anything else leaving the lifespan coroutine is foreign
+                end = 'foreign:%s' % type(e).__name__
             return [State.trace, end]
 
         async def go():
@@ -647,6 +863,8 @@ def random_case(rng, maxn=5, lifespan=False):
             c += [su, sd]
             if any(x >= 0 for x in c[:3]) or rng.random() < 0.15:
                 break
+        if rng.random() < 0.3:
+            c.append(random_styles(rng, bound_only=rng.random() < 0.8))
         comps.append(c)
     hooks = [[rng.random() < 0.5, 0 if rng.random() < 0.6 else rng.choice(ACTIONS)] for _ in range(rng.choice([0, 0, 1, 2, 3, 4]))]
     hooks = [[int(b), a] for b, a in hooks]
@@ -654,9 +872,49 @@ def random_case(rng, maxn=5, lifespan=False):
                 meta=rng.random() < 0.05, route=rng.choice([0, 0, 0, 1, 2, 3]), hooks=hooks,
                 responder=0 if rng.random() < 0.5 else rng.choice(ACTIONS),
                 naming=[rng.randint(0, 1) for _ in comps], class_level=rng.randint(0, len(hooks)),
-                variant=rng.randint(0, 5), split=random_split(rng, len(comps)) if rng.random() < 0.6 else None,
+                variant=rng.randint(0, 5),
+                split=random_split(rng, len(comps)) if (rng.random() < 0.6 and all(
+                    all(y in BOUND_STYLES for y in styles_of(x)[:3]) for x in comps)) else None,
                 hier=random_hier(rng, len(hooks)) if rng.random() < 0.6 else None)
     return c
+
+
+def random_styles(rng, bound_only):
+    pool = list(BOUND_STYLES) if bound_only else [0, 0, 0, 1, 2, 3, 4, 5]
+    # lifespan handlers may be defined in any style
+    return [rng.choice(pool), rng.choice(pool), rng.choice(pool), rng.randint(0, 5), rng.randint(0, 5)]
+
+
+def style_sweep(modes):
+    """every definition style of every method of a full component (request-cycle methods and
+    lifespan handlers), alone and behind a plain component"""
+    for y in range(6):
+        for pos in range(3):
+            st = [0, 0, 0, 0, 0]
+            st[pos] = y
+            for asgi, indep in modes:
+                yield mk_case(asgi, indep, [[0, 0, 0, -1, -1, list(st)]])
+                yield mk_case(asgi, indep, [[0, 0, 0, -1, -1], [0, 0, 3, -1, -1, list(st)]])
+                # a method-less component BEFORE it: the TypeError comes first
+                yield mk_case(asgi, indep, [[-1, -1, -1, -1, -1], [0, 0, 0, -1, -1, list(st)]])
+    for y1 in range(6):
+        for y2 in range(6):
+            for asgi, indep in modes:
+                yield mk_case(asgi, indep, [[0, -1, 0, -1, -1, [y1, 0, y2, 0, 0]], [-1, 0, -1, -1, -1, [0, y2, 0, 0, 0]]])
+
+
+def lifespan_style_cases():
+    """lifespan handlers in every definition style, also on lifespan-only components"""
+    out = []
+    for y1 in range(6):
+        for y2 in range(6):
+            for acts in ((0, 0), (0, 1), (1, 0)):
+                comps = [[0, -1, -1, 0, 0], [-1, -1, -1, acts[0], acts[1], [0, 0, 0, y1, y2]],
+                         [0, -1, 0, 0, 0, [0, 0, 0, y2, y1]]]
+                c = mk_case(1, 1, comps)
+                c['msgs'] = [0, 1]
+                out.append(c)
+    return out
 
 
 def random_hier(rng, nhooks):
@@ -773,6 +1031,9 @@ def lifespan_cases(rng, n):
     while len(out) < n:
         c = random_case(rng, maxn=5)
         c['asgi'] = 1
+        for comp in c['comps']:
+            if len(comp) > 5:   # construction must succeed: request-cycle methods in bound styles
+                comp[5] = [y if y in BOUND_STYLES else 0 for y in comp[5][:3]] + comp[5][3:]
         c['msgs'] = rng.choice([[0, 1], [0, 1], [0], [1], [0, 0, 1], [2, 0, 2, 1], [0, 1, 0], []])
         out.append(c)
     return out
@@ -782,6 +1043,7 @@ MODES = [(a, i) for a in (0, 1) for i in (0, 1)]
 
 
 def main(ctx):
+    logging.getLogger('falcon').setLevel(logging.CRITICAL + 1)
     r = Runner(ctx)
     ctx.cov['rule'] = ('one case = (interface, independent_middleware, component list with per-method scripted action, '
                        'route kind, hook tower, responder action); run on the real falcon.App / falcon.asgi.App with '
@@ -805,6 +1067,12 @@ def main(ctx):
     # 2c. class-level hooks on resource class hierarchies (inherited responders, mixins, suffixes)
     cases = list(hier_sweep(MODES))
     r.check(cases, 'hier-sweep')
+    # 2d. how the middleware methods are defined (method / static / class / instance attribute /
+    #     callable object / inherited)
+    r.check(list(style_sweep(MODES)), 'style-sweep')
+    # 2e. raise T; register a handler for an ancestor; raise T again   /   2f. concurrency
+    r.memo_block()
+    r.concurrency_block(4000 if quick else 100000)
     # 3. random deep stacks
     n = 3000 if quick else 40000
     cases = [random_case(ctx.rng) for _ in range(n)]
@@ -815,7 +1083,7 @@ def main(ctx):
         cases = [random_case(ctx.rng, maxn=8) for _ in range(10000)]
         r.check(cases, 'random<=8')
     # 4. lifespan
-    r.lifespan(lifespan_cases(ctx.rng, 600 if quick else 6000))
+    r.lifespan(lifespan_cases(ctx.rng, 600 if quick else 6000) + lifespan_style_cases())
     ctx.assumptions.append('the recording error handlers registered for HTTPRouteNotFound/HTTPMethodNotAllowed/'
                            'HTTPBadRequest stand for the default HTTPError handler on the framework\'s own raises')
 
@@ -825,7 +1093,11 @@ def replay(ctx, obj, runner=None):
     c = obj.get('case')
     if not c:
         return main(ctx)
-    if 'msgs' in c:
+    if 'schedule' in obj or 'concurrent' in obj.get('what', ''):
+        r.concurrency_block(100000)
+    elif 'raise T' in obj.get('what', ''):
+        r.memo_block()
+    elif 'msgs' in c:
         r.lifespan([c])
     else:
         r.check([c], 'replay')
